@@ -2,6 +2,7 @@ package props
 
 import (
 	"fmt"
+	"strings"
 	"time"
 
 	"verifharness/internal/enum"
@@ -196,11 +197,57 @@ func init() {
 				}
 			},
 		}
+		// catch clauses whose binder is no plain symbol: whatever the form then yields, finally runs once,
+		// after the body (and after the handler, should it run)
+		binders := []string{"e", "[e]", "&", "5", `"s"`, "(e)", "nil", ":k", "{}", "[& e]", "(quote e)"}
+		binderBodies := []string{"(do (t! 1) (throw 3))", "(t! 1)", "(do (t! 1) zz)", "(do (t! 1) (try (throw 4) (catch BINDER (t! 5)) (finally (t! 6))))"}
+		binderWraps := []string{"%s", "(try %s (catch e2 (t! 7)))", "(list (try %s (catch e2 7)))", "((fn [] %s (t! 8)))"}
+		binderProg := func(i int64) string {
+			b := binders[i%int64(len(binders))]
+			i /= int64(len(binders))
+			body := strings.ReplaceAll(binderBodies[i%int64(len(binderBodies))], "BINDER", b)
+			i /= int64(len(binderBodies))
+			return fmt.Sprintf(binderWraps[i], fmt.Sprintf("(try %s (catch %s (t! 2)) (finally (t! 9)))", body, b))
+		}
+		var rgb *evalRig
+		famB := &vf.Family{
+			Name: "catch-binders-that-are-no-symbol", InProc: true,
+			Bounds:   fmt.Sprintf("%d binders (a symbol, vectors, &, a number, a string, a list, nil, a keyword, a map) x %d bodies (throwing, returning, failing lookup, a nested try of the same shape) x %d surroundings: finally logs exactly once, after the body's and the handler's effects", len(binders), len(binderBodies), len(binderWraps)),
+			Setup:    func(t string) { tier = t; rgb = newEvalRig(true); rgb.ntTraceOnly = true },
+			N:        func(string) int64 { return int64(len(binders) * len(binderBodies) * len(binderWraps)) },
+			Describe: binderProg,
+			Run: func(i int64, r *vf.Rec) {
+				prog := binderProg(i)
+				out, _ := rgb.runImpl(lx.MustRead(prog), 3000)
+				r.Exec(1)
+				r.NT()
+				if out.Panic != nil {
+					r.Violation("a catch clause with a malformed binder makes EVAL panic", prog+"\n"+out.Panic.String())
+					return
+				}
+				tr := traceStr(out.Trace)
+				n9, last9, i1, i2 := 0, -1, -1, -1
+				for k, v := range out.Trace {
+					switch v.String() {
+					case "9":
+						n9++
+						last9 = k
+					case "1":
+						i1 = k
+					case "2":
+						i2 = k
+					}
+				}
+				if n9 != 1 || i1 < 0 || last9 < i1 || last9 < i2 {
+					r.Violation("finally of a try whose catch binder is no plain symbol does not run exactly once after body and handler", fmt.Sprintf("%s\neffects %s (1 = body, 2 = handler, 9 = finally)", prog, tr))
+				}
+			},
+		}
 		return &vf.Check{
 			ID: "C03", Level: "model_checking",
 			Rule:        "every try/catch/finally nest of the bounded grammar runs on the real EVAL and on the definitional interpreter (handler value returned as a value, catch variable scoped to the handler, finally exactly once after body and handler, outcome unchanged by finally); result, thrown payload via ErrorValue, errors.Is for Go errors, and the ordered effect trace must agree; non-trivial = has effects",
 			Assumptions: []string{"a finally body that itself fails is swallowed (README: 'for side effects only')", "payload of unbound-symbol / arity / domain errors is opaque and compared by kind only"},
-			Families:    []*vf.Family{fam, famD, famR, famA},
+			Families:    []*vf.Family{fam, famD, famR, famA, famB},
 		}
 	})
 }
